@@ -117,6 +117,10 @@ func setupDN(fx *vfixture, d *DNIn, vc vcase) {
 			fx.identities = append(fx.identities, fmt.Sprintf("did.example:signer-%d", i))
 		case "x509":
 			fx.identities = append(fx.identities, "x509.subject:"+[]string{" ", ""}[int(salt)%2]+renderDN(map[string]string(id.DN), salt+uint32(i)*5))
+		case "badTail":
+			lead := renderDN(map[string]string{"C": leafDN["C"], "ST": leafDN["ST"], "O": leafDN["O"]}, 0)
+			fx.identities = append(fx.identities, "x509.subject: "+lead+[]string{",", ",,CN=web", ",CN", ", CN=web\\"}[int(salt+uint32(i))%4])
+			fx.injectIdentities = true
 		case "badDupAttr", "badMissingC", "badGarbage", "badEmptyValue", "badEmptyMandatory":
 			// an identity nobody can interpret; no validated policy carries one, so the list is put into the document AFTER
 			// the verifier was built (buildAndVerify)
